@@ -26,6 +26,7 @@ ASSUMPTIONS = [
   "observables compared after every step: qpos qvel act time qacc qacc_warmstart sensordata actuator_force qfrc_actuator "
   "qfrc_constraint qfrc_smooth xpos xquat history act_dot ne nf nl nefc tree_asleep and the world's sorted contacts",
   "first-divergence rule: bit-equal expected; <=1e-4 relative tallied as round-off (batch neighbours differ between runs); >=1e-2 violated",
+  "a world is not judged from the step on at which it (or the shared contact pool) overflows nconmax/njmax in either execution (C16's subject)",
   "after a known-mechanism violation (stale act[nu:na], stale history) the monitor repairs that field from F so that the "
   "trajectory comparison still decides everything else",
 ]
@@ -127,6 +128,25 @@ def _compare_step(rec, a, b, ca, cb, w, ctx, sig_prefix):
       if order[r] > order[worst]:
         worst = r
   return worst
+
+
+def step_all(m, datas, inp):
+  """One step of several Data with identical inputs; overflow bits are zeroed first so that they describe this step."""
+  import mujoco_warp as mjw
+
+  for d in datas:
+    S.apply_inputs(d, inp)
+    mw.zero_overflow(d)
+    mjw.step(m, d)
+
+
+def overflowed(datas, w):
+  """True if world w (or the shared contact pool) ran out of capacity in the last step of any of the executions:
+  which rows / contacts survive then depends on the neighbours, so equal trajectories are not implied."""
+  for d in datas:
+    if int(mw.npy(d.overflow)[w]) != 0 or int(mw.npy(d.nacon)[0]) > d.naconmax or int(mw.npy(d.nefc)[w]) > d.njmax:
+      return True
+  return False
 
 
 def _bad_masks(rec, m, d, nworld):
@@ -294,14 +314,13 @@ def _scenario(rec, mjm, m, xml, rng, sc, sleep):
   live = {w: True for w in range(nworld)}
   for t in range(T):
     inp = S.sample_inputs(mjm, rng, nworld)
-    for d in (A, B, F):
-      S.apply_inputs(d, inp)
-      mjw.step(m, d)
+    step_all(m, (A, B, F), inp)
     if t == 0 and A2 is not None:
-      S.apply_inputs(A2, inp)
-      mjw.step(m, A2)
+      step_all(m, (A2,), inp)
       s1, s2 = _snap(A, TRAJ), _snap(A2, TRAJ)
       for w in stale:
+        if overflowed((A, A2), w):
+          continue
         rec.check()
         rel = S.max_rel_diff(s1, s2, TRAJ, w)
         if rel >= 1e-2:
@@ -320,6 +339,10 @@ def _scenario(rec, mjm, m, xml, rng, sc, sleep):
     sa, sb, sf = _snap(A, TRAJ), _snap(B, TRAJ), _snap(F, TRAJ)
     for w in range(nworld):
       if not live[w]:
+        continue
+      if overflowed((A, F) if mask[w] else (A, B), w):
+        live[w] = False
+        rec.count("traj_stopped_at_capacity_overflow")
         continue
       if mask[w]:
         r = _compare_step(rec, sa, sf, S.world_contacts(A, w), S.world_contacts(F, w), w, f"reset world {w} vs fresh Data, step {t} after reset (mask {kind}/{dtype})", "traj-selected:")
@@ -416,6 +439,11 @@ def requirements(agg, tier):
     unmet.append("fewer than 5 sleeping trees at reset time")
   if agg["tally"].get("unselected_with_contacts", 0) < 10:
     unmet.append("fewer than 10 unselected worlds with contacts observed")
+  t = agg["tally"]
+  if t.get("traj_selected_bit", 0) + t.get("traj_selected_round", 0) < 200:
+    unmet.append("fewer than 200 post-reset world-steps of selected worlds judged")
+  if t.get("traj_unselected_bit", 0) + t.get("traj_unselected_round", 0) < 200:
+    unmet.append("fewer than 200 post-reset world-steps of unselected worlds judged")
   if agg["distinct"] < 30:
     unmet.append("fewer than 30 distinct non-trivial scenarios")
   return unmet
